@@ -91,29 +91,14 @@ SPEC = dict(
         "repro per defect strictly, so the check fails until each is fixed in /repo or listed in known_findings.json (match on the violation field 'defect')",
     ],
     coverage=_coverage,
+    # One driver process per tier runs the whole plan (comma-separated parts; part syntax in drv/c06_ns.cpp: make_part): starting a
+    # sanitized process costs 10-20 s on this box, and one case range balances the workers better.  Per-part case counts are the
+    # counters "cases:<part>"; alphabet sizes are under bounds.parts in the evidence.
     runs=dict(
-        quick=[
-            _ns("witness-known-defects", "--space", "witness"),
-            _ns("one-element-mid", "--space", "one", "--l1", "mid"),
-            _ns("one-element-small-both-versions", "--space", "one", "--l1", "small", "--v11all", 1),
-            _ns("one-element-two-attributes", "--space", "one", "--l1", "attr2"),
-            _ns("depth2-env6-x-mid", "--space", "two", "--l1", "env6", "--l2", "mid"),
-            _ns("depth2-env-x-two-attributes", "--space", "two", "--l1", "env", "--l2", "use2"),
-            _ns("siblings-env4", "--space", "sib", "--l1", "env4", "--l2", "decl1", "--l3", "use"),
-            _ns("ladders-quick", "--space", "ladder", "--ladder", "quick"),
-            _ns("dom-builder-k3", "--space", "build", "--k", 3),
-        ],
-        thorough=[
-            _ns("witness-known-defects", "--space", "witness"),
-            _ns("one-element-full", "--space", "one", "--l1", "full"),
-            _ns("depth2-env-x-mid", "--space", "two", "--l1", "env", "--l2", "mid"),
-            _ns("depth2-env6-x-mid2", "--space", "two", "--l1", "env6", "--l2", "mid2"),
-            _ns("depth2-envs-x-small-both-versions", "--space", "two", "--l1", "envs", "--l2", "small", "--v11all", 1),
-            _ns("depth3-env6-x-midmod-x-leaf", "--space", "three", "--l1", "env6", "--l2", "midmod", "--l3", "leaf"),
-            _ns("siblings-env", "--space", "sib", "--l1", "env", "--l2", "decl1", "--l3", "use"),
-            _ns("ladders-full", "--space", "ladder", "--ladder", "full"),
-            _ns("dom-builder-k4", "--space", "build", "--k", 4),
-        ],
+        quick=[_ns("quick-plan-depth2", "--space", "multi", "--parts",
+                   "witness,one:mid,one:small:v11,one:attr2,two:env6:mid,two:env:use2,sib:env4:decl1:use,ladder:quick,build:3")],
+        thorough=[_ns("thorough-plan-depth3", "--space", "multi", "--parts",
+                      "witness,one:full,two:envs:mid,two:env:use2,two:env4:mid2,two:envs:small:v11,three:env4:midmod:leaf,sib:env6:decl1:use,ladder:full,build:4")],
     ),
     manifest=dict(
         text="Every document of the stated shape products (depth <= 2 quick / <= 3 thorough), the map-growth and >100-attribute ladders and every DOM builder program <= k steps is "
